@@ -206,6 +206,9 @@ def run_one(job):
             if rr.returncode == 1:
                 wit = [l.strip() for l in rr.stdout.splitlines() if l.strip().startswith("witness")]
                 return dict(file=f, line=ln, ctx=ctx, kind=kind, verdict="caught", by=p, tried=tried, witness=(wit[0][:200] if wit else ""))
+        if any(t.endswith(":2") for t in tried):
+            # the machinery noticed that it could not observe (harness errors / floors): flagged, though not as a violation
+            return dict(file=f, line=ln, ctx=ctx, kind=kind, verdict="inconclusive", tried=tried)
         return dict(file=f, line=ln, ctx=ctx, kind=kind, verdict="SURVIVED", tried=tried)
     finally:
         shutil.rmtree(d, ignore_errors=True)
